@@ -182,7 +182,8 @@ func runC08(c *Ctx) Result {
 	jitdec.SimResetCache(capD)
 	vars.SimResetCache(capE)
 	simrt.PoolTape = t
-	defer func() { simrt.PoolTape = nil }()
+	simrt.OrderTape = t
+	defer func() { simrt.PoolTape, simrt.OrderTape = nil, nil }()
 	panicPct := 0
 	if t.Draw(simrt.Knobs, 4) == 0 {
 		panicPct = 4
